@@ -49,8 +49,8 @@ func c16Op(k int, pos int) []c16Rec {
 		d := fitmodel.Def{Local: 1, Global: 0xFF00, Fields: []fitmodel.FieldDef{{Num: 1, Size: 1, Base: fitmodel.Uint8}, {Num: 253, Size: 4, Base: fitmodel.Uint32}}}
 		return []c16Rec{def(d), {b: fitmodel.Data(1, []byte{id, 1, 2, 3, 4}), isData: true, unkMsg: 0xFF00}, {b: fitmodel.Data(1, []byte{id, 4, 3, 2, 1}), isData: true, unkMsg: 0xFF00}}
 	case 4: // unknown message B, two records
-		d := fitmodel.Def{Local: 5, Global: 0xFE00, Fields: []fitmodel.FieldDef{{Num: 7, Size: 2, Base: fitmodel.Uint16}}}
-		return []c16Rec{def(d), {b: fitmodel.Data(5, []byte{id, 1}), isData: true, unkMsg: 0xFE00}, {b: fitmodel.Data(5, []byte{id, 2}), isData: true, unkMsg: 0xFE00}}
+		d := fitmodel.Def{Local: 5, Global: 0x0114, Fields: []fitmodel.FieldDef{{Num: 7, Size: 2, Base: fitmodel.Uint16}, {Num: 200, Size: 1, Base: fitmodel.Uint8}}} // unknown number with the low byte of record
+		return []c16Rec{def(d), {b: fitmodel.Data(5, []byte{id, 1, 9}), isData: true, unkMsg: 0x0114}, {b: fitmodel.Data(5, []byte{id, 2, 9}), isData: true, unkMsg: 0x0114}}
 	case 5: // redefinition of local 1 with another unlisted field
 		d1 := fitmodel.Def{Local: 1, Global: 20, Fields: []fitmodel.FieldDef{{Num: 3, Size: 1, Base: fitmodel.Uint8}}}
 		d2 := fitmodel.Def{Local: 1, Global: 20, Fields: []fitmodel.FieldDef{{Num: 203, Size: 1, Base: fitmodel.Uint8}, {Num: 3, Size: 1, Base: fitmodel.Uint8}}}
